@@ -5,6 +5,6 @@ cd "$(dirname "$0")/.."
 for d in seeded/*/; do
   n=$(basename $d)
   ids=$(python3 -c "import json;m=json.load(open('$d/meta.json'));print(' '.join([m['property']]+m.get('also_checked',[])))")
-  out=$(timeout 1800 selftest/eval_seeded.sh $d $ids 2>&1 | grep -E "^(caught|MISSED|ERROR|RESULT)")
+  out=$(timeout 1800 selftest/eval_seeded.sh $d $ids 2>&1 | grep -aE "^(caught|MISSED|ERROR|RESULT)")
   echo "$out" | sed "s/^/$n: /"
 done
